@@ -286,6 +286,21 @@ def run(R):
                 R.violation(f'bytes-differ-{mech}', f'serialize({name}) differs from the TL binary encoding ({len(got)} vs {len(want)} bytes)', dict(W, got_hex=got.hex() if len(got) < 600 else None))
                 continue
             R.count('encodings_equal')
+            if k % 3 == 0 and len(v) > 2:
+                # a dict is a mapping: the same value with its keys inserted in another order (at every nesting level) is the same value
+                def reorder(x):
+                    if isinstance(x, dict):
+                        items = [(kk, reorder(vv)) for kk, vv in x.items()]
+                        rng.shuffle(items)
+                        return dict(items)
+                    if isinstance(x, list):
+                        return [reorder(y) for y in x]
+                    return x
+                v2 = reorder(v)
+                st_r, got_r = mon.call(lib.serialize, lib.get_by_name(name), v2)
+                R.check(st_r == 'ok' and got_r == want, 'serialize-depends-on-key-order', f'serialize({name}) of the same value with its dict keys inserted in another order gives other bytes'
+                        + (f' / raised {got_r!r}' if st_r == 'exc' else ''), dict(W, key_order=list(v2)[:8]))
+                R.count('reordered_dict_cases')
             if k % 5 == 0:
                 # the other spellings of the same call: constructor given by name; unboxed (no id prefix) serialise / parse with explicit args;
                 # the registry looked up by id in every accepted form
@@ -407,6 +422,7 @@ def run(R):
     R.floor('registry_compared', 700)
     R.floor('roundtrips_equal', 300)
     R.floor('alternative_call_forms', 100)
+    R.floor('reordered_dict_cases', 100)
     R.floor('type_forms', 12, 'set')
 
 
